@@ -84,8 +84,14 @@ fn pass_1_internal(
     let mut cur_address = current_offset;
 
     for (line, item) in &segment.items {
+        #[cfg(feature = "verif")]
+        crate::verif::step();
+        #[cfg(feature = "verif")]
+        let verif_before = cur_address;
         match item {
             Item::Label(name) => {
+                #[cfg(feature = "verif")]
+                crate::verif::label(name, segment.t, cur_address, line);
                 if let Some(_) = common_context.set_label(name.clone(), (segment.t, cur_address)) {
                     // TODO: add display current string of mistake and previous location
                     bail!("Identifier {} is used twice, {}", name, line);
@@ -152,6 +158,8 @@ fn pass_1_internal(
             },
             Item::Pragma(_) => {}
         }
+        #[cfg(feature = "verif")]
+        crate::verif::sized(line, segment.t, verif_before, cur_address);
     }
 
     Ok((cur_address, current_offset, out_items))
